@@ -81,8 +81,9 @@ type World struct {
 	Files []*File
 	byKey map[string]*File
 	seq   int
-	// FaultName, when set, opens the node under test on the fault-injecting driver.
-	opts mininode.Options
+	opts      mininode.Options
+	fault     *vdb.Fault
+	faultName string
 }
 
 // NewWorld builds the two nodes. capacity is the localstore capacity of the node under test.
@@ -338,5 +339,53 @@ func (w *World) ReadLocal(f *File) error {
 	if !bytes.Equal(got, f.Data) {
 		return fmt.Errorf("content differs (%d vs %d bytes)", len(got), len(f.Data))
 	}
+	return nil
+}
+
+var restartSeq int
+
+// NewRestartableWorld is NewWorld with the node under test on the snapshot-capable driver,
+// so that Restart can bring up a new node on a copy of its key-value content and on the same
+// state store.
+func NewRestartableWorld(capacity uint64) (*World, error) {
+	restartSeq++
+	name := fmt.Sprintf("fsim-restartable-%d", restartSeq)
+	f := vdb.NewFault(name, nil)
+	w, err := NewWorld(capacity, func(o *mininode.Options) {
+		o.Driver = vdb.CrashName + ":" + vdb.SmallCfg
+		o.Path = name
+	})
+	if err != nil {
+		return nil, err
+	}
+	w.fault, w.faultName = f, name
+	return w, nil
+}
+
+// Restart stops the node under test and starts a new one over a copy of its local store
+// content and the same state store (chunkinfo reloads its tables from it), reconnected to
+// the source node.
+func (w *World) Restart() error {
+	if w.fault == nil {
+		return fmt.Errorf("fsim: world is not restartable")
+	}
+	w.N.Store.VerifWaitUpdateGC()
+	snap := w.fault.Snapshot()
+	state := w.N.State
+	w.N.Close()
+	vdb.DropFault(w.faultName)
+	restartSeq++
+	name := fmt.Sprintf("fsim-restartable-%d", restartSeq)
+	f := vdb.NewFault(name, snap)
+	o := w.opts
+	o.Driver = vdb.CrashName + ":" + vdb.SmallCfg
+	o.Path = name
+	o.State = state
+	n, err := mininode.New(o)
+	if err != nil {
+		return err
+	}
+	mininode.ConnectReplacing(w.Src, n)
+	w.N, w.fault, w.faultName = n, f, name
 	return nil
 }
